@@ -11,6 +11,6 @@ Separate Extraction
   BinInt.Z.add BinInt.Z.mul BinInt.Z.sub BinInt.Z.opp BinInt.Z.div BinInt.Z.modulo
   BinInt.Z.eqb BinInt.Z.ltb BinInt.Z.leb BinInt.Z.of_nat BinInt.Z.to_nat BinInt.Z.of_N BinInt.Z.to_N
   Riff.DemuxModel.parse Riff.DemuxModel.frame Riff.DemuxModel.get_chunk Riff.DemuxModel.num_frames
-  Riff.MuxModel.run Riff.MuxModel.assemble Riff.MuxModel.step
+  Riff.MuxModel.run Riff.MuxModel.assemble Riff.MuxModel.step Riff.MuxModel.repaired
   Riff.MuxView.view_of_mux Riff.MuxView.view_of_demux Riff.MuxView.op_okb
   Riff.RiffGrammar.wf.
